@@ -86,3 +86,19 @@ Theorem C05_saved_tree_is_start_plus_overlay :
   (forall q, ~ In q (map nkey (a_files st)) -> lookup_file q (fs_files fs2) = lookup_file q (fs_files fs)).
 Proof. exact push_saved_tree_closed. Qed.
 Print Assumptions C05_saved_tree_is_start_plus_overlay.
+
+(* ---------- the failing patch leaves no change (second clause), for a patch with any number of file patches ---------- *)
+From RQ Require Import ViewSim UndoChain.
+
+(* after the reject walk the stack is the one before the failing patch and every name is what it was before it -
+   same lines, same existence, same effective mode - so the save phase writes the tree of the first k patches *)
+Theorem C05_failing_patch_leaves_no_change :
+  forall dm fs index sp fuzz fps st af st1 stf rejs fuel,
+    disk_ok fs -> run_ok fs st index sp fuzz fps ->
+    (forall s, In s (a_applied st) -> (st_index s < index)%nat) ->
+    apply_file_patches fs st index sp fuzz fps af = ROk (true, st1) ->
+    (length (a_applied st1) < fuel)%nat ->
+    rollback_and_render_rej fuel st1 index [] = ROk (stf, rejs) ->
+    a_applied stf = a_applied st /\ wsim allK dm fs (a_files stf) fs (a_files st).
+Proof. exact failing_patch_leaves_no_change. Qed.
+Print Assumptions C05_failing_patch_leaves_no_change.
